@@ -1523,6 +1523,11 @@ func (p *Parser) parseTemplateLiteral(precLeft OpPrec) (template TemplateExpr) {
 
 func (p *Parser) parseArguments() (args Args) {
 	// assume we're on (
+	// arguments always allow the in operator, also inside the head of a for statement
+	prevIn := p.in
+	p.in = true
+	defer func() { p.in = prevIn }()
+
 	p.next()
 	args.List = make([]Arg, 0, 4)
 	for p.tt != CloseParenToken && p.tt != ErrorToken {
@@ -2053,7 +2058,10 @@ func (p *Parser) parseExpressionSuffix(left IExpr, prec, precLeft OpPrec) IExpr 
 				left = &CallExpr{left, p.parseArguments(), OpOpt, true}
 			} else if p.tt == OpenBracketToken {
 				p.next()
+				prevIn := p.in
+				p.in = true
 				left = &IndexExpr{left, p.parseExpression(OpExpr), OpOpt, true}
+				p.in = prevIn
 				if !p.consume("optional chaining expression", CloseBracketToken) {
 					return nil
 				}
